@@ -19,7 +19,9 @@ pub struct Case {
     pub amount: u8,
     pub corruption: u8,
     pub cparam: u16,
-    pub second: Option<(u8, u8)>, // a second mint one block later: (difficulty offset, amount class)
+    pub second: Option<(u8, u8)>, // a second mint: (difficulty offset, amount class); odd amount class: in the same batch
+    #[serde(default)]
+    pub lead: u8, // empty blocks before the coin is created
 }
 
 struct Legacy;
@@ -206,8 +208,10 @@ pub fn check_case(c: &Case, st: &mut Stats, shard: usize) -> Check {
         stakes: vec![],
     };
     let mut w = World::new(g, shard);
-    if !matches!(w.seal(None), O::Ok(_)) {
-        return Ok(());
+    for _ in 0..(1 + c.lead % 6) {
+        if !matches!(w.seal(None), O::Ok(_)) {
+            return Ok(());
+        }
     }
     // funding: three small coins to mint against + fee coins, created at height 1
     let mut fund = Transaction::new(TxKind::Normal);
@@ -302,14 +306,15 @@ pub fn run(ctx: &Ctx) -> (Outcome, String, Option<bool>) {
                 any::<u8>(),
                 any::<u16>(),
                 proptest::option::weighted(0.4, (any::<u8>(), any::<u8>())),
+                any::<u8>(),
             )
-                .prop_map(move |(net, age, variant910, dsel, amount, corruption, cparam, second)| {
+                .prop_map(move |(net, age, variant910, dsel, amount, corruption, cparam, second, lead)| {
                     let difficulty = if variant910 {
                         [1u8, 8, 10, 10, 11, 11, 12][dsel as usize % if thorough { 7 } else { 6 }]
                     } else {
                         [1u8, 6, 12, 14, 16, 17][dsel as usize % if thorough { 6 } else { 4 }]
                     };
-                    Case { net, age, variant910, difficulty, amount, corruption, cparam, second }
+                    Case { net, age, variant910, difficulty, amount, corruption, cparam, second, lead }
                 })
         },
         |c, st, shard| {
@@ -320,12 +325,115 @@ pub fn run(ctx: &Ctx) -> (Outcome, String, Option<bool>) {
             r
         },
     );
-    let rule = "Generated: a coin created at height 1 on Custom02 / Mainnet / Testnet and aged 1, 2, 3, 7, 30, 98, 99, 100, 101 or 140 blocks; a genuine MelPoW proof generated for the puzzle hash_keyed(header(creation height).hash(), stdcode(coin id)) under the legacy hash (difficulty 1-14 quick, to 17 thorough) or the TIP-910 hash (1-11 quick, 12 thorough); ERG output at the independently recomputed bound floor(reward x inflator) / +1 / -1 / 0 / half / double; then one of: no corruption (4/12), a flipped label bit, a dropped node, difficulty claimed +-1, proof for another coin, for another height's header, undecodable data or proof bytes, the fee coin listed first; optionally a second mint one block later at a neighbouring difficulty. Oracle (RefSTF's mint rules with the harness's own copies of both hash functions): accepted => proof verifies for that puzzle and difficulty, ERG <= bound, age >= 100 on mainnet; a genuine proof at or below the bound is accepted; after sealing, header DOSC speed = max(previous, demonstrated speed) and never decreases. Non-trivial = every mint carrying a generated proof; distinct by (difficulty, variant, age, amount class, corruption, network).".to_string();
+    // two mints in ONE batch, fast one first or last, on a single-threaded pool: the recorded speed is the maximum
+    let mut out = out;
+    let o = run_sharded(
+        ctx,
+        "two-mints-one-batch",
+        ctx.scale(3, 16),
+        || (any::<bool>(), 13u8..15, 1u8..3),
+        |(fast_first, d_fast, gap), st, shard| {
+            st.eval();
+            two_mints_one_batch(*fast_first, *d_fast as u32, *gap as u32, st, shard)
+        },
+    );
+    out.absorb(o);
+    let rule = "Generated: a coin created at height 1-6 on Custom02 / Mainnet / Testnet and aged 1, 2, 3, 7, 30, 98, 99, 100, 101 or 140 blocks; a genuine MelPoW proof generated for the puzzle hash_keyed(header(creation height).hash(), stdcode(coin id)) under the legacy hash (difficulty 1-14 quick, to 17 thorough) or the TIP-910 hash (1-11 quick, 12 thorough); ERG output at the independently recomputed bound floor(reward x inflator) / +1 / -1 / 0 / half / double; then one of: no corruption (4/12), a flipped label bit, a dropped node, difficulty claimed +-1, proof for another coin, for another height's header, undecodable data or proof bytes, the fee coin listed first; optionally a second mint one block later at a neighbouring difficulty; plus a phase with four TIP-910 mints (difficulty 13-14, one 1-2 lower, 8 and 9) in ONE batch with the fastest first in either half, on a single-threaded pool. Oracle (RefSTF's mint rules with the harness's own copies of both hash functions): accepted => proof verifies for that puzzle and difficulty, ERG <= bound, age >= 100 on mainnet; a genuine proof at or below the bound is accepted; after sealing, header DOSC speed = max(previous, demonstrated speed) and never decreases. Non-trivial = every mint carrying a generated proof; distinct by (difficulty, variant, age, amount class, corruption, network).".to_string();
     (out, rule, None)
 }
 
 pub fn replay(case: &serde_json::Value) -> Check {
+    if let Ok((fast_first, d, gap)) = serde_json::from_value::<(bool, u8, u8)>(case.clone()) {
+        let mut st = Stats::default();
+        return two_mints_one_batch(fast_first, d as u32, gap as u32, &mut st, 200);
+    }
     let c: Case = serde_json::from_value(case.clone()).map_err(|e| Violation::new("replay-format", e.to_string()))?;
     let mut st = Stats::default();
     check_case(&c, &mut st, 200)
+}
+
+fn two_mints_one_batch(fast_first: bool, d_fast: u32, gap: u32, st: &mut Stats, shard: usize) -> Check {
+    let g = GenesisSpec {
+        net: NetID::Custom02,
+        init: CoinData { covhash: CovSpec::True.hash(), value: CoinValue(1 << 70), denom: Denom::Mel, additional_data: Default::default() },
+        init_cov: CovSpec::True,
+        fee_pool: 0,
+        fee_mult: 100,
+        stakes: vec![],
+    };
+    let mut w = World::new(g, shard);
+    if !matches!(w.seal(None), O::Ok(_)) {
+        return Ok(());
+    }
+    let mut fund = Transaction::new(TxKind::Normal);
+    fund.inputs = vec![CoinID::zero_zero()];
+    fund.covenants = vec![CovSpec::True.bytes().into()];
+    let fee = 1u128 << 30;
+    for _ in 0..4 {
+        fund.outputs.push(CoinData { covhash: CovSpec::True.hash(), value: CoinValue(1 << 40), denom: Denom::Mel, additional_data: Default::default() });
+    }
+    fund.outputs.push(CoinData { covhash: CovSpec::True.hash(), value: CoinValue((1u128 << 70) - (4u128 << 40) - fee), denom: Denom::Mel, additional_data: Default::default() });
+    fund.fee = CoinValue(fee);
+    if !matches!(w.apply_batch(std::slice::from_ref(&fund)), O::Ok(())) {
+        return Ok(());
+    }
+    let coin_height = w.height();
+    if !matches!(w.seal(None), O::Ok(_)) {
+        return Ok(());
+    }
+    let fh = fund.hash_nosigs();
+    let hdr = match w.header_at(coin_height) {
+        Some(h) => h,
+        None => return Ok(()),
+    };
+    let h = w.height();
+    let prev = w.header_at(h - 1).map(|x| x.dosc_speed).unwrap_or(0);
+    let mk = |idx: u8, d: u32| {
+        let coin = CoinID::new(fh, idx);
+        let puzzle = tmelcrypt::hash_keyed(hdr.hash(), &stdcode::serialize(&coin).unwrap());
+        let proof = melpow::Proof::generate(&puzzle, d as usize, T910);
+        let mut tx = Transaction::new(TxKind::DoscMint);
+        tx.inputs = vec![coin];
+        tx.covenants = vec![CovSpec::True.bytes().into()];
+        tx.data = stdcode::serialize(&(d, proof.to_bytes())).unwrap().into();
+        tx.fee = CoinValue(1 << 30);
+        tx.outputs.push(CoinData { covhash: CovSpec::True.hash(), value: CoinValue((1u128 << 40) - (1 << 30)), denom: Denom::Mel, additional_data: Default::default() });
+        tx
+    };
+    // four mints: rayon splits a batch at least once even on one thread, so the fast mint must share its half
+    // with a slower one that is folded after it
+    let d_slow = d_fast - gap;
+    let fast = mk(0, d_fast);
+    let slows = vec![mk(1, d_slow), mk(2, 8), mk(3, 9)];
+    let mut batch = slows;
+    batch.insert(if fast_first { 0 } else { 2 }, fast);
+    let s_fast = refstf::mint_bound(100, d_fast, h - coin_height, prev, h).map(|x| x.0).unwrap_or(0);
+    let s_slow = refstf::mint_bound(100, d_slow, h - coin_height, prev, h).map(|x| x.0).unwrap_or(0);
+    let single = crate::world::mk_pool(shard, 1);
+    let mut trial = w.cur.clone();
+    let r = crate::util::catch(|| single.install(|| trial.apply_tx_batch(&batch).map(|_| trial.clone().seal(None).header().dosc_speed)));
+    match r {
+        Ok(Ok(got)) => {
+            let want = prev.max(s_fast).max(s_slow);
+            if got != want {
+                viol!(
+                    "dosc-speed-not-max-of-batch",
+                    "four mints in one batch (the one of difficulty {} {} the one of difficulty {}): header speed {}, expected max(previous {}, {}, {}) = {}",
+                    d_fast,
+                    if fast_first { "before" } else { "after" },
+                    d_slow,
+                    got,
+                    prev,
+                    s_fast,
+                    s_slow,
+                    want
+                );
+            }
+            st.nontrivial(h64(format!("two-mints|{}|{}|{}", fast_first, d_fast, gap).as_bytes()));
+            st.class("two-mints-in-one-batch");
+        }
+        Ok(Err(_)) => st.exclude("two-mint-batch-rejected"),
+        Err(_) => st.exclude("panicked"),
+    }
+    Ok(())
 }
